@@ -472,7 +472,7 @@ def has_nested_targetless_pair(root):
 
 
 # ------------------------------------------------------------------------------- invalid documents
-def invalidate(rng, root, n=1):
+def invalidate(rng, root, n=1, only=None):
     """apply n random structural corruptions (dangling target, initial outside, history without /
     with two / conditional default, non-orthogonal multi-target, duplicate id, missing id, ...).
     Returns the list of corruption names."""
@@ -482,8 +482,8 @@ def invalidate(rng, root, n=1):
         nodes = [x for x in root.walk()]
         states = [x for x in nodes if x.kind in ("state", "parallel", "final")]
         ts = [(x, t) for x in nodes for t in x.trans]
-        k = rng.choice(["dangling", "init-outside", "hist-none", "hist-two", "hist-cond", "hist-event", "multi", "dupid", "noid",
-                        "init-bad", "emptytarget", "hist-target", "initial-two", "initial-cond", "initial-outside", "multi-deep", "multi-late"])
+        k = rng.choice(["dangling", "init-outside", "init-outside-entered", "hist-none", "hist-two", "hist-cond", "hist-event", "multi", "dupid", "noid",
+                        "init-bad", "emptytarget", "hist-target", "initial-two", "initial-cond", "initial-outside", "multi-deep", "multi-late"] if not only else list(only))
         try:
             if k == "dangling" and ts:
                 x, t = rng.choice(ts); t.targets = (t.targets or []) + ["nosuch"]
@@ -492,6 +492,20 @@ def invalidate(rng, root, n=1):
             elif k == "init-outside":
                 c = [x for x in states if x.proper_children() and x.kind == "state"]
                 x = rng.choice(c); outs = [s for s in states if s is not x and s not in x.descendants()]
+                x.children = [ch for ch in x.children if ch.kind != "initial"]; x.init = [rng.choice(outs).id]
+            elif k == "init-outside-entered":
+                # the state with the wrong initial attribute is entered by default at start-up: an accepted document is illegal at once
+                path, cur = [], root
+                byid = dict((x.id, x) for x in nodes if x.id)
+                while cur is not None and cur.proper_children():
+                    if cur.kind == "state" and cur is not root: path.append(cur)
+                    nxt = None
+                    if cur.init: nxt = byid.get(cur.init[0])
+                    else:
+                        ini = [ch for ch in cur.children if ch.kind == "initial"]
+                        if ini and ini[0].trans and ini[0].trans[0].targets: nxt = byid.get(ini[0].trans[0].targets[0])
+                    cur = nxt if nxt is not None else cur.proper_children()[0]
+                x = rng.choice(path); outs = [s for s in states if s is not x and s not in x.descendants()]
                 x.children = [ch for ch in x.children if ch.kind != "initial"]; x.init = [rng.choice(outs).id]
             elif k == "init-bad":
                 c = [x for x in states if x.proper_children() and x.kind == "state"]
